@@ -72,8 +72,8 @@ def _typed_rows(rng: Any, n: int, hz: dict[str, bool]) -> list[str]:
                 "F": rng.choice(["1.5", "-0.25", "1e10", "3.0"]),
                 "S": "'" + rng.choice(["a", "b b", "", "ünï", "q''q"]) + "'",
                 "D": f"'{rng.choice(['2024-02-29', '1969-12-31', '1900-01-01'])}'",
-                "TS": f"'{rng.choice(['2024-02-29 12:34:56.789123', '1969-12-31 23:59:59.5', '2000-01-01 00:00:00', '1950-06-15 08:00:00.000001'])}'",
-                "TZ": f"'{rng.choice(['2024-02-29 12:34:56.789 +0000', '1969-12-31 23:59:59.250 +0000', '2013-04-05 01:02:03.123456 +0000'])}'",
+                "TS": f"'{rng.choice(['2024-02-29 12:34:56.789123', '1969-12-31 23:59:59.5', '2000-01-01 00:00:00', '1950-06-15 08:00:00.000001', '2024-02-29 12:34:56.000065', '1999-12-31 23:59:59.999999', '1969-12-31 23:59:59.999999', '2038-01-19 03:14:08.123457'])}'",
+                "TZ": f"'{rng.choice(['2024-02-29 12:34:56.789 +0000', '1969-12-31 23:59:59.250 +0000', '2013-04-05 01:02:03.123456 +0000', '2024-02-29 12:34:56.000065 +0000', '1969-12-31 23:59:59.999999 +0000'])}'",
                 "TM": f"'{rng.choice(['12:34:56', '00:00:01.5', '23:59:59.123456'])}'",
                 "B": rng.choice(["TRUE", "FALSE"]),
                 "V": f"PARSE_JSON('{rng.choice(['{\"k\": 1}', '[1, 2]', '7'])}')",
